@@ -5,7 +5,8 @@ from __future__ import annotations
 import ast
 
 from ..astutil import (
-    call_name, calls_in, dotted, enclosing_try, raised_name, unparse, walk_local,
+    ancestors, call_name, calls_in, dotted, enclosing_try, guard_atoms, lexical_guards, name_stores, parent_map,
+    raised_name, test_atoms, unparse, walk_local,
 )
 from ..evalx import Sym, has_unknown
 from ..index import ClassInfo, FuncInfo
@@ -22,7 +23,11 @@ R = Registry(
         "of the compiler's dispatch tables are guarded (try/KeyError -> documented error, .get), use a constant key "
         "present in the table, or an enum domain fully covered by the table of every dialect; every operator "
         "visitor (`visit_<operator>_binary`, `_unary_operator`, `_unary_modifier`, `_expression_clauselist`) names an "
-        "existing operator and accepts the (element, operator, **kw) call made by the dispatcher."
+        "existing operator and accepts the (element, operator, **kw) call made by the dispatcher; column-collection "
+        "lookups `<x>.c[key]` / `<x>.columns[key]` by a non-constant key are guarded (membership test on the same "
+        "collection, try/except KeyError -> documented error, key drawn from the collection); after a class guard "
+        "that raises a documented error (`if not isinstance(x, C): raise CompileError`) every attribute read on the "
+        "guarded variable is defined by a class the guard establishes."
     ),
     not_decided="absence of AttributeError/TypeError/AssertionError on arbitrary construct combinations; the 60+ "
                 "assert statements (counted, not judged).",
@@ -350,6 +355,726 @@ def r3(ctx):
             ctx.check(not problems, key, "; ".join(problems), "", f.loc, nontrivial=False)
 
 
+# ------------------------------------------------------------------------------------------ R4
+def _units(ctx):
+    """Compile-time code units: methods of every compiler / type compiler / preparer class, functions of crud.py."""
+    ix = ctx.index
+    units, seen = [], set()
+    for cls in _family(ctx):
+        for name, f in sorted(cls.methods.items()):
+            if f.key not in seen:
+                seen.add(f.key)
+                units.append(f)
+    for f in ix.all_functions(ix.module(CRUD)):
+        if f.key not in seen:
+            seen.add(f.key)
+            units.append(f)
+    return units
+
+
+def _keyerror_guarded(pm, n) -> bool:
+    for tr, part in enclosing_try(pm, n):
+        if part != "body":
+            continue
+        for hnd in tr.handlers:
+            ht = unparse(hnd.type) if hnd.type is not None else ""
+            if ("KeyError" in ht or "LookupError" in ht or ht in ("Exception", "")) and any(
+                    isinstance(x, ast.Raise) and (raised_name(x) or "").rsplit(".", 1)[-1] in DOCUMENTED
+                    for x in ast.walk(hnd)):
+                return True
+    return False
+
+
+COLLECTION_ATTRS = ("c", "columns")
+
+
+def _single_binding(fnode, name):
+    vals = [(v, st) for nm, v, st in name_stores(fnode, into_nested=True) if nm == name]
+    if len(vals) == 1 and vals[0][0] is not None and isinstance(vals[0][1], (ast.Assign, ast.AnnAssign)):
+        return vals[0][0]
+    return None
+
+
+def _collection_receiver(fnode, recv):
+    """Spellings of the receiver when `recv` denotes a column collection (`<x>.c`, `<x>.columns`, or a local bound once
+    to one), else None.  `<x>.c` and `<x>.columns` are the same collection."""
+    d = dotted(recv)
+    if d is None or d.endswith("()"):
+        return None
+    spell = {d}
+    if isinstance(recv, ast.Name):
+        v = _single_binding(fnode, recv.id)
+        d2 = dotted(v) if v is not None else None
+        if d2 is None or "." not in d2 or d2.rsplit(".", 1)[1] not in COLLECTION_ATTRS:
+            return None
+        d = d2
+        spell.add(d)
+    elif "." not in d or d.rsplit(".", 1)[1] not in COLLECTION_ATTRS:
+        return None
+    base = d.rsplit(".", 1)[0]
+    spell.update(f"{base}.{a}" for a in COLLECTION_ATTRS)
+    return spell
+
+
+def _comp_scopes(pm, n, stop):
+    """[(comprehension generator, enclosing comprehension expr)] in whose scope `n` is evaluated (innermost first)."""
+    out = []
+    child = n
+    for anc in ancestors(pm, n):
+        if anc is stop:
+            break
+        if isinstance(anc, (ast.ListComp, ast.SetComp, ast.GeneratorExp, ast.DictComp)):
+            for i, gen in enumerate(anc.generators):
+                if child is gen:
+                    # n sits in generator i (its iter / ifs): generators before it, and its own earlier ifs
+                    out.extend((g2, anc) for g2 in anc.generators[:i])
+                    if any(n is x for t in gen.ifs for x in ast.walk(t)):
+                        out.append((gen, anc))
+                    break
+            else:
+                out.extend((g2, anc) for g2 in anc.generators)
+        child = anc
+    return out
+
+
+def _membership_guarded(ctx, f, pm, n, key_txt, spell) -> str:
+    want = {f"{key_txt} in {r}" for r in spell}
+    guards = list(lexical_guards(pm, n, stop=f.node))
+    for gen, _ in _comp_scopes(pm, n, f.node):
+        guards.extend((t, True) for t in gen.ifs)
+    if any(pol and txt in want for txt, pol in guard_atoms(guards)):
+        return "membership test on the same collection"
+    g = ctx.cfg(f)
+    for node in g.nodes_containing(n):
+        if any(pol and txt in want for txt, pol in guard_atoms(g.edge_guards(node))):
+            return "membership test on the same collection (early exit)"
+    return ""
+
+
+def _loop_source(pm, n, name, stop):
+    """Iterable expression of the innermost comprehension generator / for statement that binds `name` around n."""
+    for gen, _ in _comp_scopes(pm, n, stop):
+        if isinstance(gen.target, ast.Name) and gen.target.id == name:
+            return gen.iter
+    for anc in ancestors(pm, n):
+        if anc is stop:
+            break
+        if isinstance(anc, (ast.For, ast.AsyncFor)) and isinstance(anc.target, ast.Name) and anc.target.id == name:
+            return anc.iter
+    return None
+
+
+def _key_from_collection(f, pm, n, spell) -> str:
+    """The key is a loop variable over `<coll>.keys()`, or over a local list that was filtered by membership in <coll>."""
+    if not isinstance(n.slice, ast.Name):
+        return ""
+    it = _loop_source(pm, n, n.slice.id, f.node)
+    if it is None:
+        return ""
+    if isinstance(it, ast.Call) and isinstance(it.func, ast.Attribute) and it.func.attr == "keys" and dotted(it.func.value) in spell:
+        return "key iterates over the collection's own keys"
+    if isinstance(it, ast.Name):
+        src = _single_binding(f.node, it.id)
+        if isinstance(src, (ast.ListComp, ast.SetComp, ast.GeneratorExp)) and isinstance(src.elt, ast.Name):
+            e = src.elt.id
+            atoms = guard_atoms([(t, True) for gen in src.generators for t in gen.ifs])
+            if any(pol and txt in {f"{e} in {r}" for r in spell} for txt, pol in atoms):
+                return "key iterates over a list pre-filtered by membership in the collection"
+    return ""
+
+
+@R.rule("C22-R4", floor=4, template="T-GUARD",
+        desc="column-collection lookups `<x>.c[key]` / `<x>.columns[key]` by a non-constant key in compiler classes and "
+             "crud.py are guarded: `key in <same collection>` dominates, or try/except KeyError -> documented error, or "
+             "the key is drawn from the collection itself")
+def r4(ctx):
+    for f in _units(ctx):
+        pm = None
+        idx = {}
+        for n in walk_local(f.node, into_nested=True):
+            if not (isinstance(n, ast.Subscript) and isinstance(n.ctx, ast.Load)):
+                continue
+            if isinstance(n.slice, ast.Slice) or (isinstance(n.slice, ast.Constant) and isinstance(n.slice.value, int)) \
+                    or (isinstance(n.slice, ast.UnaryOp) and isinstance(n.slice.operand, ast.Constant)):
+                continue  # positional access, not a key lookup
+            spell = _collection_receiver(f.node, n.value)
+            if spell is None:
+                continue
+            ctx.functions_analysed.add(f.key)
+            pm = pm or parent_map(f.node)
+            rd = dotted(n.value)
+            idx[rd] = idx.get(rd, 0) + 1
+            key = f"{f.key}:{rd}[]" + (f"#{idx[rd]}" if idx[rd] > 1 else "")
+            loc = f"{f.module.path}:{n.lineno}"
+            how = ("try/except KeyError -> documented error" if _keyerror_guarded(pm, n) else "") \
+                or _membership_guarded(ctx, f, pm, n, unparse(n.slice), spell) or _key_from_collection(f, pm, n, spell)
+            ctx.check(bool(how), key,
+                      f"`{unparse(n)}` looks a user-supplied key up in a column collection with no `{unparse(n.slice)} in {rd}` "
+                      f"test and no KeyError guard: a name that is not a column of the table surfaces as a bare KeyError from "
+                      f"compile() instead of a documented error (or being skipped)", how, loc)
+
+
+# ------------------------------------------------------------------------------------------ R5
+_HARMLESS_BASES = {"Generic", "object", "Protocol", "Enum", "IntEnum", "NamedTuple", "TypedDict", "Exception", "str", "int"}
+_DEFS_CACHE: dict = {}
+
+
+def _own_attrs(ci: ClassInfo):
+    hit = _DEFS_CACHE.get(id(ci.node))
+    if hit is not None and hit[0] is ci.node:
+        return hit[1]
+    names = set(ci.methods) | set(ci.assigns) | set(ci.nested)
+    for st in ast.walk(ci.node):
+        if isinstance(st, ast.AnnAssign) and isinstance(st.target, ast.Name):
+            names.add(st.target.id)
+        elif isinstance(st, (ast.FunctionDef, ast.AsyncFunctionDef, ast.ClassDef)):
+            names.add(st.name)
+        elif isinstance(st, ast.Attribute) and isinstance(st.ctx, ast.Store) and isinstance(st.value, ast.Name) \
+                and st.value.id in ("self", "cls"):
+            names.add(st.attr)
+    for v in ci.assigns.get("__slots__", []):
+        for e in ast.walk(v):
+            if isinstance(e, ast.Constant) and isinstance(e.value, str):
+                names.add(e.value)
+    _DEFS_CACHE[id(ci.node)] = (ci.node, names)
+    return names
+
+
+def _defines(ix, ci: ClassInfo, attr: str):
+    """True / False / None (hierarchy not fully known, or dynamic attribute protocol)."""
+    unknown = False
+    for k in ix.mro(ci):
+        own = _own_attrs(k)
+        if attr in own:
+            return True
+        if "__getattr__" in own or "__getattribute__" in own:
+            unknown = True
+        for b, e in zip(k.bases, k.base_exprs):
+            if b is None and e.rsplit(".", 1)[-1] not in _HARMLESS_BASES:
+                unknown = True
+    return None if unknown else False
+
+
+def _atoms_ast(test, pol=True):
+    if isinstance(test, ast.UnaryOp) and isinstance(test.op, ast.Not):
+        return _atoms_ast(test.operand, not pol)
+    if isinstance(test, ast.BoolOp) and ((isinstance(test.op, ast.And) and pol) or (isinstance(test.op, ast.Or) and not pol)):
+        out = []
+        for v in test.values:
+            out.extend(_atoms_ast(v, pol))
+        return out
+    return [(test, pol)]
+
+
+def _isinstance_atom(ix, module, node):
+    """(variable name, [ClassInfo]) for `isinstance(<Name>, C | (C1, C2))` with package classes, else None."""
+    if not (isinstance(node, ast.Call) and isinstance(node.func, ast.Name) and node.func.id == "isinstance"
+            and len(node.args) == 2 and isinstance(node.args[0], ast.Name)):
+        return None
+    exprs = node.args[1].elts if isinstance(node.args[1], ast.Tuple) else [node.args[1]]
+    classes = []
+    for e in exprs:
+        d = dotted(e)
+        c = ix.resolve(module, d) if d else None
+        if not isinstance(c, ClassInfo):
+            return None
+        classes.append(c)
+    return node.args[0].id, classes
+
+
+def _ends_in_documented_raise(body) -> bool:
+    return bool(body) and isinstance(body[-1], ast.Raise) and (raised_name(body[-1]) or "").rsplit(".", 1)[-1] in DOCUMENTED
+
+
+def _universe(ctx, f, var):
+    """Classes the variable can statically be, when the code says so: annotated parameter, or the element
+    parameter of a `visit_<name>` method (dispatch by __visit_name__).  None = unknown."""
+    ix = ctx.index
+    a = f.node.args
+    params = a.posonlyargs + a.args + a.kwonlyargs
+    for arg in params:
+        if arg.arg == var and arg.annotation is not None:
+            ann = arg.annotation
+            if isinstance(ann, ast.Constant) and isinstance(ann.value, str):
+                try:
+                    ann = ast.parse(ann.value, mode="eval").body
+                except SyntaxError:
+                    return None
+            if isinstance(ann, ast.Subscript):
+                ann = ann.value
+            c = ix.resolve(f.module, dotted(ann) or "")
+            if isinstance(c, ClassInfo):
+                return [c] + ix.subclasses(c)
+            return None
+    if f.cls is not None and f.name.startswith("visit_") and len(f.params) > 1 and f.params[1] == var:
+        vn = f.name[len("visit_"):]
+        out = []
+        for c in ix.all_classes():
+            if any(isinstance(v, ast.Constant) and v.value == vn for v in c.assigns.get("__visit_name__", [])):
+                out.append(c)
+                out.extend(ix.subclasses(c))
+        return out or None
+    return None
+
+
+def _lacking_witness(ix, excluded, attr):
+    """A class outside the excluded hierarchy, closest to it, that has no attribute `attr`."""
+    ex = set()
+    for d in excluded:
+        ex.add(d.key)
+        ex.update(s.key for s in ix.subclasses(d))
+    anc = {}
+    for d in excluded:
+        for k in ix.mro(d)[1:]:
+            anc[k.key] = k
+    best = None
+    seen = set()
+    for k in anc.values():
+        for c in ix.subclasses(k):
+            if c.key in ex or c.key in seen or c.key in anc:
+                continue
+            seen.add(c.key)
+            if _defines(ix, c, attr) is False:
+                score = (sum(1 for m in ix.mro(c) if m.key in anc), "__visit_name__" in c.assigns, c.key)
+                if best is None or score > best[0]:
+                    best = (score, c)
+    return best[1] if best else None
+
+
+@R.rule("C22-R5", floor=3, template="T-GUARD",
+        desc="class guards that raise (`if [not] isinstance(x, C): raise CompileError`) in compiler "
+             "classes and crud.py: every attribute read on x after the guard is defined by a class positively "
+             "established for x on that path (a guard that only excludes classes establishes none)")
+def r5(ctx):
+    ix = ctx.index
+    for f in _units(ctx):
+        if "isinstance" not in f.module.source:
+            continue
+        sites = []
+        for n in walk_local(f.node, into_nested=False):
+            if not isinstance(n, ast.If):
+                continue
+            for arm, pol in ((n.body, True), (n.orelse, False)):
+                # any raise: whether the raised class is a documented one is C22-R1's business
+                if not (arm and isinstance(arm[-1], ast.Raise)):
+                    continue
+                atoms = _atoms_ast(n.test, pol)
+                if len(atoms) != 1:
+                    continue
+                ia = _isinstance_atom(ix, f.module, atoms[0][0])
+                if ia is not None:
+                    sites.append((n, pol, ia[0], ia[1], atoms[0][1]))
+        if not sites:
+            continue
+        ctx.functions_analysed.add(f.key)
+        g = ctx.cfg(f)
+        count = {}
+        for ifnode, raise_pol, var, classes, inst_pol in sites:
+            # inst_pol: polarity of isinstance(...) on the RAISING arm; False = whitelist (raise unless instance)
+            count[var] = count.get(var, 0) + 1
+            key = f"{f.key}:class-guard:{var}" + (f"#{count[var]}" if count[var] > 1 else "")
+            loc = f"{f.module.path}:{ifnode.lineno}"
+            tnodes = [t.id for t in g.nodes if t.kind == "test" and t.stmt is ifnode]
+            ctx.require(tnodes, f"{key}: guard has no CFG test node")
+            pass_lab = "false" if raise_pol else "true"
+            pass_succ = [b for t in tnodes for b, lab in g.succ[t] if lab == pass_lab]
+            if not pass_succ:
+                ctx.ok(key, "nothing follows the guard")
+                continue
+            cut = {(t, pass_lab) for t in tnodes}
+            outside = g.reachable([g.entry], edge_ok=lambda a, b, lab: (a, lab) not in cut)
+            region = g.reachable(pass_succ, edge_ok=lambda a, b, lab: lab != "exc") - outside
+            # stop following x where it is rebound to something that is not `x.<method>(...)` returning Self
+            killed = set()
+            for nid in sorted(region):
+                st = g.nodes[nid].stmt
+                if g.nodes[nid].kind != "stmt" or not isinstance(st, (ast.Assign, ast.AnnAssign, ast.AugAssign, ast.Delete)):
+                    continue
+                tg = st.targets if isinstance(st, (ast.Assign, ast.Delete)) else [st.target]
+                if not any(isinstance(x, ast.Name) and x.id == var for t in tg for x in ast.walk(t) if isinstance(x, ast.Name) and isinstance(x.ctx, (ast.Store, ast.Del))):
+                    continue
+                v = getattr(st, "value", None)
+                same = False
+                if isinstance(v, ast.Call) and isinstance(v.func, ast.Attribute) and isinstance(v.func.value, ast.Name) and v.func.value.id == var:
+                    for c in classes:
+                        m = ix.resolve_method(c, v.func.attr)
+                        r = m.node.returns if m is not None else None
+                        if r is not None and unparse(r).strip("'\"") in ("Self", "SelfT"):
+                            same = True
+                if not same:
+                    killed |= g.reachable([b for b, lab in g.succ[nid] if lab != "exc"], edge_ok=lambda a, b, lab: lab != "exc")
+            region -= killed
+            universe = _universe(ctx, f, var)
+            bad, n_reads = [], 0
+            for nid in sorted(region):
+                node = g.nodes[nid]
+                if node.stmt is None or node.kind in ("with_exit", "join", "handler"):
+                    continue
+                from ..astutil import own_exprs
+                parts = own_exprs(node.stmt) if isinstance(node.stmt, ast.stmt) else []
+                reads = sorted({x.attr for p in parts for x in ast.walk(p)
+                                if isinstance(x, ast.Attribute) and isinstance(x.ctx, ast.Load)
+                                and isinstance(x.value, ast.Name) and x.value.id == var})
+                if not reads:
+                    continue
+                pos = []
+                neg = []
+                for t, pol in g.edge_guards(nid):
+                    for a, p2 in _atoms_ast(t, pol):
+                        ia = _isinstance_atom(ix, f.module, a)
+                        if ia is not None and ia[0] == var:
+                            (pos if p2 else neg).append(ia[1])
+                for attr in reads:
+                    n_reads += 1
+                    if pos:
+                        # isinstance(x, (A, B)) establishes A-or-B: every alternative must define the attribute
+                        est = [all(_defines(ix, c, attr) is not False for c in alt) for alt in pos]
+                        if not any(est):
+                            names = " / ".join(sorted({c.name for alt in pos for c in alt}))
+                            bad.append(f"`{var}.{attr}` (L{node.stmt.lineno}): not defined by {names}, the class the guard establishes")
+                        continue
+                    excluded = [c for alt in neg for c in alt]
+                    if universe is not None:
+                        exk = set()
+                        for d in excluded:
+                            exk.add(d.key)
+                            exk.update(s.key for s in ix.subclasses(d))
+                        lack = [c for c in universe if c.key not in exk and _defines(ix, c, attr) is False]
+                        if lack:
+                            bad.append(f"`{var}.{attr}` (L{node.stmt.lineno}): {lack[0].name} is admitted by the guard and has no such attribute")
+                        continue
+                    w = _lacking_witness(ix, excluded, attr) if excluded else None
+                    if w is not None:
+                        names = " / ".join(sorted({c.name for c in excluded}))
+                        bad.append(f"`{var}.{attr}` (L{node.stmt.lineno}): the guard only excludes {names}; e.g. {w.name} passes it "
+                                   f"and has no attribute `{attr}`")
+            kind = "whitelist" if not inst_pol else "blacklist"
+            ctx.check(not bad, key,
+                      f"the {kind} guard `{unparse(ifnode.test)}` -> {raised_name(ifnode.body[-1] if raise_pol else ifnode.orelse[-1])} does not establish "
+                      f"the attributes used after it: " + "; ".join(bad) + " -- such a construct reaches the attribute access and "
+                      "compile() fails with AttributeError instead of the documented error",
+                      f"{kind} guard on {' / '.join(c.name for c in classes)}; {n_reads} attribute read(s) on `{var}` after it all established",
+                      loc)
+
+
+# ------------------------------------------------------------------------------------------ R6
+PRECOND_BASES = ("SQLCompiler", "DDLCompiler", "GenericTypeCompiler")
+
+
+def _path_of(expr, env):
+    parts = []
+    cur = expr
+    while isinstance(cur, ast.Attribute):
+        parts.append(cur.attr)
+        cur = cur.value
+    if isinstance(cur, ast.Name) and cur.id in env:
+        return ".".join([env[cur.id]] + parts[::-1])
+    return None
+
+
+def _local_env(fn, env0):
+    """(env, bindings): env maps parameter names and locals bound exactly once to an attribute chain of a
+    parameter onto a normalised path (`arg0.element.name`); bindings = every local binding."""
+    env = dict(env0)
+    bindings = {}
+    for nm, v, st in name_stores(fn, into_nested=False):
+        bindings.setdefault(nm, []).append((v, st))
+    changed = True
+    while changed:
+        changed = False
+        for nm, bs in bindings.items():
+            if nm in env or len(bs) != 1 or bs[0][0] is None:
+                continue
+            pth = _path_of(bs[0][0], env)
+            if pth:
+                env[nm] = pth
+                changed = True
+    return env, bindings
+
+
+class _Norm(ast.NodeTransformer):
+    def __init__(self, env):
+        self.env = env
+
+    def visit_Attribute(self, node):
+        pth = _path_of(node, self.env)
+        if pth:
+            return ast.Name(id=pth, ctx=ast.Load())
+        return self.generic_visit(node)
+
+    def visit_Name(self, node):
+        if node.id in self.env:
+            return ast.Name(id=self.env[node.id], ctx=ast.Load())
+        return node
+
+
+def _norm_text(expr, env):
+    import copy
+    return unparse(_Norm(env).visit(copy.deepcopy(expr)))
+
+
+def _chains(expr, env):
+    out = set()
+
+    def rec(n):
+        pth = _path_of(n, env) if isinstance(n, (ast.Attribute, ast.Name)) else None
+        if pth:
+            out.add(pth)
+            return
+        for c in ast.iter_child_nodes(n):
+            rec(c)
+    rec(expr)
+    return out
+
+
+def _paths(expr, env, bindings, pm):
+    """Element paths a test depends on: chains it mentions, plus (one level) the chains in the values and branch
+    conditions of the bindings of every other local it mentions."""
+    out = _chains(expr, env)
+    for n in ast.walk(expr):
+        if isinstance(n, ast.Name) and n.id not in env and n.id in bindings:
+            for v, st in bindings[n.id]:
+                if v is not None:
+                    out |= _chains(v, env)
+                for t, _ in lexical_guards(pm, st):
+                    out |= _chains(t, env)
+    return {x for x in out if "." in x}
+
+
+def _guards_of(ctx, cls, fn, env0, depth, top_only=False, pure_helpers_only=False, seen=None):
+    """[(atoms {(normalised text, polarity)}, paths, where)] for documented-raise guards of `fn` and of the helpers it
+    calls as `self.h(...)` / `self.preparer.h(...)` (arguments mapped onto the helper's parameters)."""
+    ix = ctx.index
+    seen = seen or set()
+    env, bindings = _local_env(fn, env0)
+    pm = parent_map(fn)
+    out = []
+    stmts = list(fn.body) if top_only else [n for n in walk_local(fn, into_nested=False) if isinstance(n, ast.stmt)]
+    for st in stmts:
+        if isinstance(st, ast.If):
+            for arm, pol in ((st.body, True), (st.orelse, False)):
+                if _ends_in_documented_raise(arm):
+                    atoms = {(_norm_text(a, env), p2) for a, p2 in _atoms_ast(st.test, pol)}
+                    out.append((atoms, _paths(st.test, env, bindings, pm), f"{fn.name}:L{st.lineno}",
+                                (unparse(st.test) if pol else f"not ({unparse(st.test)})")))
+    if depth <= 0:
+        return out
+    prep = ix.cls(f"{COMP}::IdentifierPreparer")
+    calls = []
+    for st in stmts:
+        if top_only and not (isinstance(st, ast.Expr) and isinstance(st.value, ast.Call)):
+            continue
+        from ..astutil import own_exprs
+        for part in (own_exprs(st) if not isinstance(st, (ast.FunctionDef, ast.AsyncFunctionDef, ast.ClassDef)) else []):
+            calls.extend(calls_in(part))
+    for c in calls:
+        nm = call_name(c) or ""
+        target = None
+        if nm.startswith("self.preparer.") and nm.count(".") == 2:
+            target = ix.resolve_method(prep, nm.rsplit(".", 1)[1])
+        elif nm.startswith("self.") and nm.count(".") == 1 and cls is not None:
+            target = ix.resolve_method(cls, nm[5:])
+        if target is None or target.key in seen or target.node is fn:
+            continue
+        if pure_helpers_only:
+            body = [x for x in target.node.body if not (isinstance(x, ast.Expr) and isinstance(x.value, ast.Constant))]
+            if not body or not all(isinstance(x, ast.If) and _ends_in_documented_raise(x.body) and not x.orelse for x in body):
+                continue
+        a = target.node.args
+        names = [x.arg for x in a.posonlyargs + a.args][1:]
+        env2 = {}
+        for i, arg in enumerate(c.args):
+            if i < len(names):
+                pth = _path_of(arg, env)
+                if pth:
+                    env2[names[i]] = pth
+        for k in c.keywords:
+            if k.arg in names:
+                pth = _path_of(k.value, env)
+                if pth:
+                    env2[k.arg] = pth
+        if not env2:
+            continue
+        ctx.functions_analysed.add(target.key)
+        out.extend(_guards_of(ctx, target.cls if nm.startswith("self.preparer.") else cls, target.node, env2, depth - 1,
+                              seen=seen | {target.key}))
+    return out
+
+
+@R.rule("C22-R6", floor=12, template="T-SIBLING",
+        desc="a dialect override of a base compiler visitor that does not delegate to super() keeps every unconditional "
+             "documented-error precondition of the base visitor (same test on the visited element -> documented raise, "
+             "in the override itself or in a self./self.preparer. helper it calls)")
+def r6(ctx):
+    ix = ctx.index
+    for bname in PRECOND_BASES:
+        base = ix.cls(f"{COMP}::{bname}")
+        subs = sorted(ix.subclasses(base), key=lambda c: c.key)
+        for name, bf in sorted(base.methods.items()):
+            overrides = [c for c in subs if name in c.methods]
+            if not overrides:
+                continue
+            a = bf.node.args
+            bparams = [x.arg for x in a.posonlyargs + a.args][1:]
+            if not bparams:
+                continue
+            pre = _guards_of(ctx, base, bf.node, {p: f"arg{i}" for i, p in enumerate(bparams)}, 1, top_only=True,
+                             pure_helpers_only=True)
+            pre = [x for x in pre if x[1]]
+            if not pre:
+                continue
+            ctx.functions_analysed.add(bf.key)
+            for c in overrides:
+                of = c.methods[name]
+                ctx.functions_analysed.add(of.key)
+                delegates = any((call_name(x) or "") == f"super().{name}" for x in calls_in(of.node))
+                oa = of.node.args
+                oparams = [x.arg for x in oa.posonlyargs + oa.args][1:]
+                have = None
+                for atoms, paths, where, shown in pre:
+                    simple = all(_is_simple(t) for t, _ in atoms)
+                    label = (" and ".join(sorted(("" if pol else "not ") + txt for txt, pol in atoms)) if simple
+                             else "test over " + ", ".join(sorted(paths)))
+                    key = f"{of.key}:precondition:{label}"
+                    if delegates:
+                        ctx.ok(key, "delegates to super()")
+                        continue
+                    if have is None:
+                        have = _guards_of(ctx, c, of.node, {p: f"arg{i}" for i, p in enumerate(oparams)}, 2)
+                    # same atom, or -- when either side tests a derived local -- a documented guard over the same element path
+                    hit = [w for at2, p2, w, _ in have
+                           if (atoms & at2) or ((paths & p2) and not (simple and all(_is_simple(t) for t, _ in at2)))]
+                    ctx.check(bool(hit), key,
+                              f"{bf.qualname} raises a documented error when `{shown}` ({where}); the override {of.qualname} does "
+                              f"not call super() and has no such check (itself or in the self./self.preparer. helpers it calls): "
+                              f"the construct reaches the name/table formatting and compile() fails with an internal error "
+                              f"(AssertionError / AttributeError) on this dialect",
+                              f"checked at {hit[0] if hit else ''}", of.loc)
+
+
+def _is_simple(txt: str) -> bool:
+    """`argN.a.b is None`-style atom: a single path compared with a constant."""
+    head = txt.split(" ", 1)[0]
+    return head.startswith("arg") and all(part.isidentifier() for part in head.split("."))
+
+
+# ------------------------------------------------------------------------------------------ R7
+STACK_ENTRY = f"{COMP}::_CompilerStackEntry"
+
+
+def _typeddict_keys(ci: ClassInfo):
+    return [st.target.id for st in ci.node.body if isinstance(st, ast.AnnAssign) and isinstance(st.target, ast.Name)]
+
+
+def _handler_converts(ctx, hnd) -> bool:
+    """The handler ends every KeyError in a documented error: a documented `raise`, or a call of a NoReturn helper."""
+    for x in ast.walk(hnd):
+        if isinstance(x, ast.Raise) and (raised_name(x) or "").rsplit(".", 1)[-1] in DOCUMENTED:
+            return True
+    last = hnd.body[-1] if hnd.body else None
+    if isinstance(last, ast.Expr) and isinstance(last.value, ast.Call):
+        return (call_name(last.value) or "").rsplit(".", 1)[-1] in ctx.noreturn_names()
+    return False
+
+
+def _mentions(expr, name) -> bool:
+    return any(isinstance(x, ast.Name) and x.id == name for x in ast.walk(expr))
+
+
+@R.rule("C22-R7", floor=7, template="T-GUARD / T-SIBLING",
+        desc="reads `<entry>[\"k\"]` of the optional (total=False) keys of the compiler stack entry TypedDict in compiler "
+             "classes and crud.py: inside try/except KeyError -> documented error, or dominated by a store of the same "
+             "key on the same receiver in the same function, or by a `\"k\" in <entry>` test; or, when the read depends on "
+             "a dispatch keyword parameter (compound_index), every visitor taking that parameter writes the key")
+def r7(ctx):
+    ix = ctx.index
+    ent = ix.cls(STACK_ENTRY)
+    total_false = any(k.arg == "total" and isinstance(k.value, ast.Constant) and k.value.value is False for k in ent.node.keywords)
+    optional = set(_typeddict_keys(ent)) if total_false else set()
+    required = {k for b in ent.bases if b is not None for k in _typeddict_keys(b)}
+    ctx.require(optional and required and not (optional & required),
+                "_CompilerStackEntry is no longer a total=False TypedDict over a required base: optional keys not understood")
+    units = _units(ctx)
+    protocols = {}
+    for f in units:
+        if not any(f'"{k}"' in f.module.source for k in optional):
+            continue
+        pm = None
+        idx = {}
+        for n in walk_local(f.node, into_nested=True):
+            if not (isinstance(n, ast.Subscript) and isinstance(n.ctx, ast.Load) and isinstance(n.slice, ast.Constant)
+                    and n.slice.value in optional):
+                continue
+            k = n.slice.value
+            ctx.functions_analysed.add(f.key)
+            pm = pm or parent_map(f.node)
+            idx[k] = idx.get(k, 0) + 1
+            key = f"{f.key}:stack-entry[{k}]" + (f"#{idx[k]}" if idx[k] > 1 else "")
+            loc = f"{f.module.path}:{n.lineno}"
+            recv = unparse(n.value)
+            how = ""
+            for tr, part in enclosing_try(pm, n):
+                if part == "body" and any(
+                        (h.type is None or any(t in unparse(h.type) for t in ("KeyError", "LookupError", "Exception")))
+                        and _handler_converts(ctx, h) for h in tr.handlers):
+                    how = "try/except KeyError -> documented error"
+            if not how:
+                g = ctx.cfg(f)
+                stores = []
+                for x in walk_local(f.node, into_nested=False):
+                    if isinstance(x, ast.Subscript) and isinstance(x.ctx, ast.Store) and isinstance(x.slice, ast.Constant) \
+                            and x.slice.value == k and unparse(x.value) == recv:
+                        stores.extend(g.nodes_containing(x))
+                here = g.nodes_containing(n)
+                guards = [gd for h in here for gd in g.edge_guards(h)] + lexical_guards(pm, n, stop=f.node)
+                if stores and here and all(g.always_preceded(h, stores) is None for h in here):
+                    how = "written on every path before the read"
+                elif any(pol and txt == f"{k!r} in {recv}" for txt, pol in guard_atoms(guards)):
+                    how = "membership test"
+                else:
+                    own = f.params[1:] if f.cls is not None else f.params
+                    for prm in own[1:]:  # not the visited element itself: a keyword of the dispatch protocol
+                        if any(_mentions(t, prm) for t, _ in guards) and sum(1 for u in units if prm in u.params) >= 2:
+                            protocols.setdefault((k, prm), []).append(f.qualname)
+                            how = f"depends on the dispatch parameter `{prm}`: writers judged per visitor taking `{prm}`"
+                            break
+            ctx.check(bool(how), key,
+                      f"`{unparse(n)}` reads the optional stack-entry key {k!r} (declared total=False) with no KeyError guard, no "
+                      f"preceding store in this function and no membership test: when the enclosing visitor did not set it, "
+                      f"compile() fails with a bare KeyError", how, loc)
+    # protocol keys: every compile unit that takes the parameter writes the key under a test of it, itself or through a
+    # self.helper to which it passes the parameter
+    for (k, prm), readers in sorted(protocols.items()):
+        parts = [u for u in units if prm in u.params]
+        ctx.require(len(parts) >= 2, f"no visitors take `{prm}`: protocol of stack-entry key {k!r} not understood")
+
+        def writes(u):
+            pm = parent_map(u.node)
+            for x in walk_local(u.node, into_nested=False):
+                if isinstance(x, ast.Subscript) and isinstance(x.ctx, ast.Store) and isinstance(x.slice, ast.Constant) \
+                        and x.slice.value == k and any(_mentions(t, prm) for t, _ in lexical_guards(pm, x, stop=u.node)):
+                    return True
+            return False
+        direct = {u.key for u in parts if writes(u)}
+        for u in sorted(parts, key=lambda u: u.key):
+            ctx.functions_analysed.add(u.key)
+            via = None
+            if u.key not in direct and u.cls is not None:
+                for c in calls_in(u.node):
+                    nm = call_name(c) or ""
+                    if nm.startswith("self.") and nm.count(".") == 1 and (
+                            any(isinstance(a, ast.Name) and a.id == prm for a in c.args)
+                            or any(kw.arg == prm and _mentions(kw.value, prm) for kw in c.keywords)):
+                        h = ix.resolve_method(u.cls, nm[5:])
+                        if h is not None and h.key in direct:
+                            via = h.qualname
+            ctx.check(u.key in direct or via is not None, f"{u.key}:stack-entry[{k}]:written-under-{prm}",
+                      f"{u.qualname} takes the dispatch parameter `{prm}` but never stores the stack-entry key {k!r} under a test of it "
+                      f"(nor through a helper it passes `{prm}` to), while {', '.join(sorted(set(readers)))} reads `[{k!r}]` unguarded for the "
+                      f"following members: when this visitor handles member 0 the next member fails with a bare KeyError({k!r})",
+                      f"stores {k!r} under a test of `{prm}`" + (f" via {via}" if via else ""), u.loc)
+
+
 # ------------------------------------------------------------------------------------------ self test
 R.mutant("r1-raises-keyerror", COMP,
          sub('            raise exc.CompileError(\n                "Unary expression has no operator or modifier"\n            )',
@@ -382,3 +1107,52 @@ R.mutant("benign-extra-documented-raise", "dialects/sqlite/base.py",
 R.mutant("benign-visitor-extra-default-arg", "dialects/sqlite/base.py",
          sub("    def visit_regexp_match_op_binary(self, binary, operator, **kw):\n        return self._generate_generic_binary(binary, \" REGEXP \", **kw)",
              "    def visit_regexp_match_op_binary(self, binary, operator, _sep=\" REGEXP \", **kw):\n        return self._generate_generic_binary(binary, _sep, **kw)"), None)
+
+# --- round 2 (seeds, observations): R4 .. R7
+from ..report import chain  # noqa: E402
+
+MY = "dialects/mysql/base.py"
+ODKU_OLD = ("            cols = [\n                statement.table.c[key]\n                for key in parameter_ordering\n"
+            "                if key in statement.table.c\n            ] + [c for c in statement.table.c if c.key not in ordered_keys]\n")
+R.mutant("seed1-odku-ordered-keys-unfiltered", MY,
+         sub(ODKU_OLD, "            cols = [statement.table.c[key] for key in parameter_ordering] + [\n"
+                       "                c for c in statement.table.c if c.key not in ordered_keys\n            ]\n"), "C22-R4")
+R.mutant("r4-scan-cols-membership-dropped", CRUD,
+         sub("            if isinstance(key, str) and key in stmt.table.c\n", "            if isinstance(key, str)\n"), "C22-R4")
+R.mutant("r4-odku-membership-on-other-collection", MY,
+         sub("                if key in statement.table.c\n", "                if key in ordered_keys\n"), "C22-R4")
+R.mutant("benign-odku-collection-hoisted", MY,
+         sub(ODKU_OLD, "            tc = statement.table.c\n            cols = [tc[key] for key in parameter_ordering if key in tc] + [\n"
+                       "                c for c in tc if c.key not in ordered_keys\n            ]\n"), None)
+R.mutant("benign-odku-keys-prefiltered", MY,
+         sub(ODKU_OLD, "            known = [k for k in parameter_ordering if k in statement.table.c]\n"
+                       "            cols = [statement.table.columns[key] for key in known] + [\n"
+                       "                c for c in statement.table.c if c.key not in ordered_keys\n            ]\n"), None)
+R.mutant("seed2-from-select-guard-becomes-blacklist", CRUD,
+         chain(sub("from .selectable import Select\n", "from .selectable import CompoundSelect\n"),
+               sub("        if not isinstance(ins_from_select, Select):\n", "        if isinstance(ins_from_select, CompoundSelect):\n")), "C22-R5")
+R.mutant("r5-from-select-guard-widened-to-selectbase", CRUD,
+         chain(sub("from .selectable import Select\n", "from .selectable import SelectBase\n"),
+               sub("        if not isinstance(ins_from_select, Select):\n", "        if not isinstance(ins_from_select, SelectBase):\n")), "C22-R5")
+R.mutant("benign-from-select-local-renamed", CRUD, sub("ins_from_select", "sel_stmt", count=7), None)
+R.mutant("benign-from-select-guard-as-else-branch", CRUD,
+         chain(sub("        if not isinstance(ins_from_select, Select):\n            raise exc.CompileError(",
+                   "        if isinstance(ins_from_select, Select):\n            pass\n        else:\n            raise exc.CompileError(")), None)
+R.mutant("r6-pg-create-index-drops-table-check", "dialects/postgresql/base.py",
+         sub("        index = create.element\n        self._verify_index_table(index)\n        text = \"CREATE \"\n",
+             "        index = create.element\n        text = \"CREATE \"\n"), "C22-R6")
+R.mutant("r6-mssql-create-index-drops-table-check", "dialects/mssql/base.py",
+         sub("        index = create.element\n        self._verify_index_table(index)\n        preparer = self.preparer\n",
+             "        index = create.element\n        preparer = self.preparer\n"), "C22-R6")
+R.mutant("benign-pg-create-index-inline-table-check", "dialects/postgresql/base.py",
+         sub("        index = create.element\n        self._verify_index_table(index)\n        text = \"CREATE \"\n",
+             "        index = create.element\n        if index.table is None:\n            raise exc.CompileError(\"Index is not associated with any table.\")\n        text = \"CREATE \"\n"), None)
+R.mutant("r7-label-reference-keyerror-guard-lost", COMP,
+         sub("            except KeyError as ke:\n                raise exc.CompileError(\n                    \"Can't resolve label reference for ORDER BY / \"\n                    \"GROUP BY / DISTINCT etc.\"\n                ) from ke\n\n            (\n",
+             "            except ValueError as ke:\n                raise exc.CompileError(\n                    \"Can't resolve label reference for ORDER BY / \"\n                    \"GROUP BY / DISTINCT etc.\"\n                ) from ke\n\n            (\n"), "C22-R7")
+R.mutant("r7-from-select-entry-store-conditional", CRUD,
+         sub("    compiler.stack[-1][\"insert_from_select\"] = stmt.select\n",
+             "    if stmt.include_insert_from_select_defaults:\n        compiler.stack[-1][\"insert_from_select\"] = stmt.select\n"), "C22-R7")
+R.mutant("benign-label-reference-handler-var-renamed", COMP,
+         sub("            except KeyError as ke:\n                raise exc.CompileError(\n                    \"Can't resolve label reference for ORDER BY / \"\n                    \"GROUP BY / DISTINCT etc.\"\n                ) from ke\n\n            (\n",
+             "            except KeyError as err:\n                raise exc.CompileError(\n                    \"Can't resolve label reference for ORDER BY / \"\n                    \"GROUP BY / DISTINCT etc.\"\n                ) from err\n\n            (\n"), None)
